@@ -562,7 +562,9 @@ func checkEsdsBytes(a *aac.AudioSpecificConfig, es []byte) {
 	}
 	if msg != "" {
 		fail("esds-descriptors", class, w, msg)
+		return
 	}
+	hygDesc(es, w) // cross-cutting oracles: hygiene.go
 }
 
 func searchDesc(r *hx.Rng, n int, thorough bool) {
